@@ -54,6 +54,10 @@ class Exec(ExecExpr):
             raises.extend(br)
             for c, base in bn:
                 for c2, b2 in self.narrow_union(c, base, raises):
+                    from .execexpr import dict_view
+                    if n.func.attr in ('items', 'keys', 'values', 'get', 'copy', 'update', 'pop', 'setdefault') and \
+                            isinstance(dict_view(b2).ty, Ty.TDict):
+                        b2 = dict_view(b2)
                     k = prim_kind(b2.ty)
                     if k is not None:
                         callee_states.append((c2, ('method', k, b2, n.func.attr)))
